@@ -21,7 +21,7 @@ type aqP struct {
 	Signer    string // "" sp-a | attacker | sp-b
 	KeyInfo   string // "" yes | no
 	SignImpl  string // "" own | goxmldsig
-	Forge     string // "" | sv-flip | attr-edit | subject-edit | sig-stripped | dv-flip
+	Forge     string // "" | sv-flip | attr-edit | subject-edit | sig-stripped | dv-flip | xsw-dup-signed-first | xsw-dup-evil-first | xsw-two-bodies
 	Dest      string // "" advertised | absent | sso-location | foreign | prefixed-advertised | prefixed-foreign
 	Subject   string // "" alice | bob | unknown | absent
 	Attrs     string // requested attribute list shape (aqAttrLists)
@@ -257,11 +257,35 @@ func aqBuild(p aqP) (*world.World, *http.Request, *aqTruth) {
 			case "attr-edit":
 				aq.Set("Consent", "urn:evil")
 			case "subject-edit":
-				aq.Path("Subject", "NameID").SetText("bob")
-				t.SubjectName = "bob"
+				other := "bob"
+				if aq.Path("Subject", "NameID").TextContent() == "bob" {
+					other = "alice"
+				}
+				aq.Path("Subject", "NameID").SetText(other)
+				t.SubjectName = other
 			case "sig-stripped":
 				sig.Remove()
 				t.SigValue = false
+			case "xsw-dup-signed-first", "xsw-dup-evil-first", "xsw-two-bodies":
+				// a second, unsigned query about bob next to the signed query about alice
+				evil := aq.Clone()
+				evil.Child("Signature").Remove()
+				evil.Set("ID", "_evil-aq")
+				evil.Path("Subject", "NameID").SetText("bob")
+				body := aq.Parent
+				switch p.Forge {
+				case "xsw-dup-signed-first":
+					aq.InsertAfter(evil)
+				case "xsw-dup-evil-first":
+					evil.Parent = body
+					body.Kids = append([]*xt.Node{evil}, body.Kids...)
+				case "xsw-two-bodies":
+					b2 := body.Clone()
+					b2.Kids = nil
+					b2.Add(evil)
+					body.InsertAfter(b2)
+				}
+				t.SubjectName = "" // whichever query is processed, nothing may be disclosed
 			default:
 				panic("aqBuild: Forge " + p.Forge)
 			}
